@@ -260,6 +260,55 @@ def execute(case):
                                    route=route, **sig)
       except (ValueError, TypeError, KeyError, pg.WritePermissionError):
         pass
+    # route 4: a sibling sub-DNA copied over another one (identically, or with its last decision changed):
+    # for a distinct multi-choice both repeat a candidate
+    if how == 'dup':
+      try:
+        for variant in ('same', 'modified'):
+          raw = pg.from_json(pg.to_json(pg.DNA.from_numbers(list(member), spec)))
+          parents = []
+
+          def walk3(nd):
+            if len(nd.children) >= 2:
+              parents.append(nd)
+            for ch in nd.children:
+              walk3(ch)
+          walk3(raw)
+          if not parents:
+            break
+          nd = parents[pos % len(parents)]
+          kids = list(nd.children)
+          i = mi % len(kids)
+          j = (i + 1) % len(kids)
+          copy_ = kids[i].clone(deep=True)
+          if variant == 'modified':
+            leaf = copy_
+            while leaf.children:
+              leaf = leaf.children[-1]
+            if leaf is copy_ or not isinstance(leaf.value, int):
+              continue
+            with pg.as_sealed(False):
+              leaf.rebind(value=leaf.value + 1 if leaf.value == 0 else leaf.value - 1, skip_notification=True)
+          kids[j] = copy_
+          with pg.as_sealed(False):
+            nd.rebind(children=kids, skip_notification=True)
+          try:
+            flat = tuple(raw.to_numbers())
+          except Exception:   # pylint: disable=broad-except
+            flat = None
+          if flat is not None and flat in refset:
+            continue
+          for route, fn in (('validate', lambda: spec.validate(raw)), ('use_spec', lambda: raw.use_spec(spec))):
+            try:
+              fn()
+              accepted = True
+            except (ValueError, TypeError, IndexError, KeyError):
+              accepted = False
+            if accepted:
+              return res.violate('DNA %r (child %d of a node of member %r replaced by a %s copy of child %d) is accepted by %s; %s' % (
+                  raw, j, member, variant, i, route, what), law='non-member-accepted', how='dup-sub-' + variant, route=route, **sig)
+      except (ValueError, TypeError, KeyError, pg.WritePermissionError):
+        pass
     # route 2: a spec-less DNA tree with one node value changed, then validated / bound with use_spec
     if how in ('+1', '-1', 'neg', 'n', 'float', 'bool', 'str') and len(c) == len(member):
       try:
